@@ -522,7 +522,9 @@ def consumers(repo: Repo, rep: Report) -> int:
         for v, r in rets:
             n += 1
             construct = f"LLR mode: {unparse(r)}"
-            trace = [f"abstract value of the decision: {v.show()}"] + [f"idiom: {x}" for x in interp.idioms[:4]]
+            if v.p("llr") == I and not is_top(v):
+                construct = f"{cname}, LLR mode: the decided bit increases with the LLR"  # keyed by what is wrong, not by the spelling of the return
+            trace = [f"abstract value of the decision: {v.show()}", f"return statement: {unparse(r)[:80]}"] + [f"idiom: {x}" for x in interp.idioms[:4]]
             if v.kind and v.kind[0] == "nearest":
                 order = table_order_in_init(ci, "reference_points", LLR_ATOMS)
                 if order == "desc":
